@@ -416,3 +416,166 @@ Qed.
 
 Lemma tmap_of_list_is_of_list : forall l, tmap_of_list l = of_list _ _ cmp_timeout l.
 Proof. intros l. reflexivity. Qed.
+
+(* ---- the transcribed derived Ord of ReplicaTimeout is a strict total order ---- *)
+Definition ord_laws {A : Type} (c : A -> A -> comparison) : Prop :=
+  (forall a b, c b a = CompOpp (c a b)) /\
+  (forall a b x, c a b = Lt -> c b x = Lt -> c a x = Lt) /\
+  (forall a b, c a b = Eq -> a = b).
+
+Lemma ord_refl : forall (A : Type) (c : A -> A -> comparison), ord_laws c -> forall a, c a a = Eq.
+Proof. intros A c [H _] a. pose proof (H a a) as E. destruct (c a a); cbn in E; congruence. Qed.
+
+Definition cmp_pair {A B : Type} (ca : A -> A -> comparison) (cb : B -> B -> comparison) (x y : A * B) : comparison :=
+  lex (ca (fst x) (fst y)) (cb (snd x) (snd y)).
+
+Lemma ord_pair : forall (A B : Type) (ca : A -> A -> comparison) (cb : B -> B -> comparison),
+  ord_laws ca -> ord_laws cb -> ord_laws (cmp_pair ca cb).
+Proof.
+  intros A B ca cb Ha Hb. pose proof (ord_refl _ _ Ha) as Ra.
+  destruct Ha as [Sa [Ta Ea]]. destruct Hb as [Sb [Tb Eb]].
+  unfold cmp_pair, lex. repeat split.
+  - intros [a1 b1] [a2 b2]. cbn [fst snd]. rewrite (Sa a1 a2), (Sb b1 b2).
+    destruct (ca a1 a2); reflexivity.
+  - intros [a1 b1] [a2 b2] [a3 b3]. cbn [fst snd]. intros H1 H2.
+    destruct (ca a1 a2) eqn:E1.
+    + apply Ea in E1. subst a2. destruct (ca a1 a3) eqn:E2; try congruence. eapply Tb; eassumption.
+    + destruct (ca a2 a3) eqn:E2; try discriminate.
+      * apply Ea in E2. subst a3. rewrite E1. reflexivity.
+      * rewrite (Ta _ _ _ E1 E2). reflexivity.
+    + discriminate.
+  - intros [a1 b1] [a2 b2]. cbn [fst snd]. intros H.
+    destruct (ca a1 a2) eqn:E1; try discriminate. apply Ea in E1. apply Eb in H. subst. reflexivity.
+Qed.
+
+Lemma ord_inj : forall (A B : Type) (c : B -> B -> comparison) (t : A -> B),
+  ord_laws c -> (forall a b, t a = t b -> a = b) -> ord_laws (fun a b => c (t a) (t b)).
+Proof.
+  intros A B c t [S [T E]] Hinj. repeat split.
+  - intros a b. apply S.
+  - intros a b x. apply T.
+  - intros a b H. apply Hinj. apply E. exact H.
+Qed.
+
+Lemma ord_Z : ord_laws Z.compare.
+Proof.
+  repeat split.
+  - intros a b. apply Z.compare_antisym.
+  - intros a b x H1 H2. rewrite Z.compare_lt_iff in *. lia.
+  - intros a b. apply Z.compare_eq.
+Qed.
+
+Lemma ord_bool : ord_laws cmp_bool.
+Proof.
+  repeat split.
+  - intros [] []; reflexivity.
+  - intros [] [] []; cbn; congruence.
+  - intros [] []; cbn; congruence.
+Qed.
+
+Fixpoint cmp_list {A : Type} (c : A -> A -> comparison) (a b : list A) : comparison :=
+  match a, b with
+  | [], [] => Eq
+  | [], _ => Lt
+  | _, [] => Gt
+  | x :: a', y :: b' => lex (c x y) (cmp_list c a' b')
+  end.
+
+Lemma ord_list : forall (A : Type) (c : A -> A -> comparison), ord_laws c -> ord_laws (cmp_list c).
+Proof.
+  intros A c Hc. pose proof (ord_refl _ _ Hc) as Rc. destruct Hc as [S [T E]]. repeat split.
+  - induction a as [|x a IH]; destruct b as [|y b]; try reflexivity.
+    cbn [cmp_list]. unfold lex. rewrite (S x y), (IH b). destruct (c x y); reflexivity.
+  - induction a as [|x a IH]; intros [|y b] [|z l] H1 H2; cbn [cmp_list] in *; try discriminate; try reflexivity.
+    unfold lex in *.
+    destruct (c x y) eqn:E1.
+    + apply E in E1. subst y. destruct (c x z); try congruence. eapply IH; eassumption.
+    + destruct (c y z) eqn:E2; try discriminate.
+      * apply E in E2. subst z. rewrite E1. reflexivity.
+      * rewrite (T _ _ _ E1 E2). reflexivity.
+    + discriminate.
+  - induction a as [|x a IH]; intros [|y b] H; cbn [cmp_list] in H; try discriminate; try reflexivity.
+    unfold lex in H. destruct (c x y) eqn:E1; try discriminate.
+    apply E in E1. subst y. f_equal. apply IH. exact H.
+Qed.
+
+Lemma ord_opt : forall (A : Type) (c : A -> A -> comparison), ord_laws c -> ord_laws (cmp_opt c).
+Proof.
+  intros A c [S [T E]]. repeat split.
+  - intros [a|] [b|]; cbn [cmp_opt]; try reflexivity. apply S.
+  - intros [a|] [b|] [x|]; cbn [cmp_opt]; try discriminate; try reflexivity. apply T.
+  - intros [a|] [b|]; cbn [cmp_opt]; try discriminate; try reflexivity. intros H. f_equal. apply E. exact H.
+Qed.
+
+Lemma ord_ext : forall (A : Type) (c c' : A -> A -> comparison),
+  (forall a b, c a b = c' a b) -> ord_laws c' -> ord_laws c.
+Proof.
+  intros A c c' H [S [T E]]. repeat split.
+  - intros a b. rewrite !H. apply S.
+  - intros a b x. rewrite !H. apply T.
+  - intros a b. rewrite H. apply E.
+Qed.
+
+Lemma ord_bytes : ord_laws cmp_bytes.
+Proof.
+  apply (ord_ext _ _ (cmp_list Z.compare)); [|exact (ord_list Z Z.compare ord_Z)].
+  induction a as [|x a IH]; destruct b as [|y b]; try reflexivity. cbn [cmp_bytes cmp_list]. rewrite IH. reflexivity.
+Qed.
+Lemma ord_bits : ord_laws cmp_bits.
+Proof.
+  apply (ord_ext _ _ (cmp_list cmp_bool)); [|exact (ord_list bool cmp_bool ord_bool)].
+  induction a as [|x a IH]; destruct b as [|y b]; try reflexivity. cbn [cmp_bits cmp_list]. rewrite IH. reflexivity.
+Qed.
+
+Lemma ord_view : ord_laws cmp_view.
+Proof.
+  apply (ord_inj View _ (cmp_pair cmp_bytes (cmp_pair Z.compare Z.compare))
+           (fun v => (v_genesis v, (v_epoch v, v_number v)))).
+  - apply ord_pair; [exact ord_bytes | apply ord_pair; exact ord_Z].
+  - intros [g1 n1 e1] [g2 n2 e2] H. cbn in H. inversion H; subst. reflexivity.
+Qed.
+
+Lemma ord_header : ord_laws cmp_header.
+Proof.
+  apply (ord_inj BlockHeader _ (cmp_pair Z.compare cmp_bytes) (fun h => (bh_number h, bh_payload h))).
+  - apply ord_pair; [exact ord_Z | exact ord_bytes].
+  - intros [n1 p1] [n2 p2] H. cbn in H. inversion H; subst. reflexivity.
+Qed.
+
+Lemma ord_commit : ord_laws cmp_commit.
+Proof.
+  apply (ord_inj ReplicaCommit _ (cmp_pair cmp_view cmp_header) (fun c => (rc_view c, rc_proposal c))).
+  - apply ord_pair; [exact ord_view | exact ord_header].
+  - intros [v1 p1] [v2 p2] H. cbn in H. inversion H; subst. reflexivity.
+Qed.
+
+Lemma ord_commit_qc : ord_laws cmp_commit_qc.
+Proof.
+  apply (ord_inj CommitQC _ (cmp_pair cmp_commit (cmp_pair cmp_bits cmp_bytes))
+           (fun q => (cq_msg q, (cq_signers q, cq_sig q)))).
+  - apply ord_pair; [exact ord_commit | apply ord_pair; [exact ord_bits | exact ord_bytes]].
+  - intros [m1 s1 g1] [m2 s2 g2] H. cbn in H. inversion H; subst. reflexivity.
+Qed.
+
+Theorem ord_timeout : ord_laws cmp_timeout.
+Proof.
+  apply (ord_inj ReplicaTimeout _ (cmp_pair cmp_view (cmp_pair (cmp_opt cmp_commit) (cmp_opt cmp_commit_qc)))
+           (fun t => (rt_view t, (rt_high_vote t, rt_high_qc t)))).
+  - apply ord_pair; [exact ord_view | apply ord_pair; apply ord_opt; [exact ord_commit | exact ord_commit_qc]].
+  - intros [v1 a1 b1] [v2 a2 b2] H. cbn in H. inversion H; subst. reflexivity.
+Qed.
+
+Theorem timeoutqc_insertion_order_irrelevant : forall l l',
+  Permutation l l' -> pairwise _ _ cmp_timeout l -> tmap_of_list l = tmap_of_list l'.
+Proof.
+  intros l l' Hp Hd. rewrite !tmap_of_list_is_of_list.
+  destruct ord_timeout as [S [T E]].
+  apply map_insertion_order_irrelevant; assumption.
+Qed.
+
+(* the map built from any list of entries satisfies the BTreeMap invariant *)
+Theorem tmap_of_list_sorted : forall l, sorted _ _ cmp_timeout (tmap_of_list l).
+Proof.
+  intros l. rewrite tmap_of_list_is_of_list. destruct ord_timeout as [S [T E]].
+  apply of_list_sorted; assumption.
+Qed.
